@@ -25,6 +25,8 @@ MODES = {"normal": [], "O": ["-O"], "OO": ["-OO"]}
 ENVS = {"unset": None, "empty": "", "nonEmpty": "1"}
 _CACHE = {}
 _SLICE = None
+NEIGHBOURS = [{"from": "C08", "limit": 400, "why": "a disabled snapshot never captures"},
+              {"from": "C19", "limit": 400, "why": "disabled decorators accept what enabled ones reject"}]
 
 
 def _slice(rng_seed=12345):
@@ -81,7 +83,7 @@ def _children():
 def cases(tier, rng):
     for m in MODES:
         for e in ENVS:
-            for deco in ("require", "ensure", "snapshot", "invariant", "requireOnChecker", "ensureOnChecker"):
+            for deco in ("require", "ensure", "snapshot", "snapshotOverOld", "invariant", "requireOnChecker", "ensureOnChecker"):
                 for arg in ("dflt", "explicitTrue", "explicitFalse", "slow"):
                     yield "table", {"dom": "config", "mode": m, "env": e, "arg": arg, "deco": deco}
             for deco in ("requireOnStaticObj", "ensureOnStaticObj", "requireOnClassmObj", "ensureOnClassmObj"):
@@ -105,6 +107,8 @@ def driver_inputs(case):
         if case["deco"].endswith("Obj"):
             # to the model a descriptor object is a callable like any other
             return [dict(case, deco="require" if case["deco"].startswith("require") else "ensure")]
+        if case["deco"] == "snapshotOverOld":
+            return [dict(case, deco="snapshot")]
         return [case]
     return [case["case"]]
 
@@ -160,6 +164,11 @@ def spec(case, mos, io):
     fails = []
     if case["dom"] == "c15broken":
         for flavour, (res, ran) in sorted(io["broken"].items()):
+            if flavour == "strengthening_override":
+                if res != "TypeError":
+                    fails.append("mode %s/%s: an explicitly enabled @require strengthening a base method without preconditions: %s "
+                                 "(the class must be refused with TypeError in every interpreter mode)" % (case["mode"], case["env"], res))
+                continue
             if res != "violation" or ran:
                 fails.append("mode %s/%s: %s on an object whose (explicitly enabled) invariant was broken behind the library's back: "
                              "outcome %s, bodies run %s - expected a violation before any body" % (case["mode"], case["env"], flavour, res, ran))
